@@ -99,6 +99,12 @@ def build_kwargs(case) -> dict:
         tab = LABELS[kind]
         vals = [tab[t] for t in case["req"]]
         kw["expected_groups"] = np.array(vals, dtype=object if kind in ("str", "widestr") else None)
+        if case.get("req_form") == "index":      # the same labels handed over as a pandas Index / a plain list
+            import pandas as pd
+
+            kw["expected_groups"] = pd.Index(kw["expected_groups"])
+        elif case.get("req_form") == "list" and kind not in ("str", "widestr"):
+            kw["expected_groups"] = list(vals)
         if case.get("req_range"):
             # the same labels as a pandas RangeIndex (they must form an increasing arithmetic progression)
             import pandas as pd
